@@ -101,7 +101,7 @@ func (h *treeHarness) genTags(root *tv) []tagSpec {
 			path = append(path, it.key)
 			target = it.v
 			next := mapOf(it.v)
-			if next != nil && len(next.items) > 0 && p.chance(2, 3) {
+			if next != nil && len(next.items) > 0 && p.chance(4, 5) {
 				cur = next
 				continue
 			}
@@ -174,7 +174,7 @@ func enctagMain(args []string) {
 		st.Cases++
 		st.Ops++
 		h.bad, h.mapLeak, h.pubLost = "", "", ""
-		t := h.genTagMap(2)
+		t := h.genTagMap(2 + p.intn(3)) // maps nested up to five deep: pointers of up to five segments
 		tags := h.genTags(t)
 		w := []string{"1", "1", "1", "1", "1", "1", "1", "N"}[p.intn(8)]
 		ovTok := "-"
